@@ -3,6 +3,7 @@ package props
 import (
 	"encoding/binary"
 	"math"
+	"strings"
 	"unicode/utf8"
 
 	"verifharness/gen"
@@ -173,7 +174,45 @@ func changeNode(r *gen.RNG, p gen.Profile, v any) any {
 // "" is the void document).
 var confusable = []string{``, `null`, `""`, `[]`, `{}`, `0`, `false`, `true`, `1`, `"0"`, `"null"`, `"false"`, `"[]"`, `"{}"`, `"a"`,
 	`[[]]`, `[""]`, `[{}]`, `[null]`, `[0]`, `[false]`, `[[],[]]`, `["",""]`, `[[],""]`, `["",[]]`, `[[[]]]`, `[[""]]`, `[{},{}]`,
-	`{"":""}`, `{"a":[]}`, `{"a":""}`, `{"a":{}}`, `{"a":null}`, `{"a":1,"b":2}`, `{"a":2,"b":1}`, `{"a":"b"}`, `{"b":"a"}`, `-0`, `[-0]`, `[0,0]`, `[0,-0]`, `[1,2]`, `[2,1]`, `[1,1,2]`, `[1,2,2]`, `[[1,2],[2,1]]`, `[[2,1],[1,2]]`, `[[1,2]]`}
+	`{"":""}`, `{"a":[]}`, `{"a":""}`, `{"a":{}}`, `{"a":null}`, `{"a":1,"b":2}`, `{"a":2,"b":1}`, `{"a":"b"}`, `{"b":"a"}`, `-0`, `[-0]`, `[0,0]`, `[0,-0]`, `[1,2]`, `[2,1]`, `[1,1,2]`, `[1,2,2]`, `[[1,2],[2,1]]`, `[[2,1],[1,2]]`, `[[1,2]]`,
+	`"a\n"`, `"a "`, `" a"`, `"A"`, `"a\u0000"`, `{"a\n":1}`, `{"a":1}`}
+
+// midDiffPair returns two strings of n bytes that are equal except for one
+// byte in the middle (same length, same head, same tail).
+func midDiffPair(n int) (string, string) {
+	b := make([]byte, n)
+	for i := range b {
+		b[i] = "abcdefghij"[i%10]
+	}
+	x := string(b)
+	b[n/2] = 'Z'
+	return x, string(b)
+}
+
+func repeatText(t string, k int) []string {
+	out := make([]string, k)
+	for i := range out {
+		out[i] = t
+	}
+	return out
+}
+
+// bulky atoms (JSON texts): long strings that differ only in the middle, and
+// bags whose member counts differ by multiples of 256 at equal total length.
+var bulky = func() []string {
+	var out []string
+	for _, n := range []int{600, 1100, 5000, 70000} {
+		x, y := midDiffPair(n)
+		out = append(out, ref.ToJSON(x), ref.ToJSON(y))
+	}
+	bag := func(nx, ny int) string {
+		return "[" + strings.Join(append(repeatText(`"x"`, nx), repeatText(`"y"`, ny)...), ",") + "]"
+	}
+	out = append(out, bag(257, 1), bag(1, 257), bag(300, 44), bag(44, 300), bag(512, 3), bag(256, 259), bag(129, 129), bag(255, 3), bag(3, 255))
+	x, y := midDiffPair(1100)
+	out = append(out, ref.ToJSON([]any{x, y}), ref.ToJSON([]any{y, x}), ref.ToJSON([]any{x, x}), ref.ToJSON(map[string]any{x: 1.0}), ref.ToJSON(map[string]any{y: 1.0}))
+	return out
+}()
 
 // wrapText places a JSON text at the root, in an array or under a key.
 func wrapText(t string, how int) (string, bool) {
